@@ -36,6 +36,7 @@ import (
 	"runtime"
 	"runtime/debug"
 	"sort"
+	"strconv"
 	"strings"
 	"sync"
 	"sync/atomic"
@@ -191,6 +192,12 @@ type checker struct {
 	storage  rootDigests
 	inst     rootDigests
 	once     map[string]bool // leaves below a sync.Once-holding struct (first initialisation accepted)
+	// cached keys of every remote key set (fields behind the key set's mutex, otherwise not compared):
+	// they may change only in a step during which a key document was fetched
+	cache    rootDigests
+	cacheNew rootDigests
+	cacheURL map[string]string // path of a key set below its instance -> the document URL it downloads from
+	fetches  map[string]int64  // per document URL: fetches before the step
 }
 
 func (ck *checker) digestOneSupplied(su *world.Supplied) map[string]string {
@@ -249,6 +256,22 @@ func (ck *checker) digestOneInst(i *world.Inst, stop map[unsafe.Pointer]string, 
 	d.SyncGuarded = true // a sync.Map / atomic box inside an instance is synchronised state of that instance
 	d.Root("inst:"+i.Name, &i.Obj)
 	ck.s.st.merge(d)
+	if ck.cacheNew == nil {
+		ck.cacheNew = rootDigests{}
+	}
+	cm := map[string]string{}
+	if ck.cacheURL == nil {
+		ck.cacheURL = map[string]string{}
+	}
+	for k, v := range d.Guarded {
+		if j := strings.Index(k, ".cachedKeys"); j >= 0 {
+			cm[k] = v
+			if u, err := strconv.Unquote(d.Guarded[k[:j]+".jwksURL"]); err == nil {
+				ck.cacheURL[k[:j]] = u
+			}
+		}
+	}
+	ck.cacheNew[i.Name] = cm
 	if ck.once == nil {
 		ck.once = map[string]bool{}
 	}
@@ -272,6 +295,28 @@ func (ck *checker) baseline() {
 	ck.supplied = ck.digestSupplied()
 	ck.storage = ck.digestStorage()
 	ck.inst = ck.digestInsts()
+	ck.adoptCache()
+}
+
+// adoptCache takes the cached-key digests of the instances digested since the last call as the state
+// before the next step.
+func (ck *checker) adoptCache() {
+	ck.adoptNewCaches()
+	ck.fetches = map[string]int64{}
+	for _, u := range ck.cacheURL {
+		ck.fetches[u] = world.KeyFetchCount(u)
+	}
+}
+
+// adoptNewCaches: an instance that came into existence during a step (the fetch counter of the step stays)
+func (ck *checker) adoptNewCaches() {
+	if ck.cache == nil {
+		ck.cache = rootDigests{}
+	}
+	for k, v := range ck.cacheNew {
+		ck.cache[k] = v
+	}
+	ck.cacheNew = rootDigests{}
 }
 
 // harnessStorage brackets a storage mutation made by the harness in the role of
@@ -396,6 +441,30 @@ func (ck *checker) frame() []*finding {
 		}
 		fs = append(fs, &finding{"unsynchronised-instance-write", cls, "field of a shared instance written outside any mutex-holding struct: " + strings.Join(head(ren[r], 4), "; ")})
 	}
+	// the cached keys of a remote key set sit behind its mutex (not compared above); they are replaced by a
+	// download and by nothing else: a change in a step during which no key document was fetched is a write
+	// by a lookup
+	for _, r := range world.SortedKeys(ck.cache) {
+		after, ok := ck.cacheNew[r]
+		if !ok {
+			continue
+		}
+		paths, ren := world.Diff(ck.cache[r], after)
+		var bad []string
+		for i, p := range paths {
+			j := strings.Index(p, ".cachedKeys")
+			u, known := ck.cacheURL[p[:j]]
+			before, counted := ck.fetches[u]
+			// the URL is unknown / was not counted before the step (key set created in this step): not judged
+			if known && counted && world.KeyFetchCount(u) == before {
+				bad = append(bad, ren[i])
+			}
+		}
+		if len(bad) > 0 {
+			fs = append(fs, &finding{"hidden-write", "rp.remoteKeySet.cachedKeys", "cached keys of a shared key set changed in a step during which its key document was not fetched: " + strings.Join(head(bad, 4), "; ")})
+		}
+	}
+	ck.adoptCache()
 	ck.glob, ck.supplied, ck.storage, ck.inst = g, su, st, in
 	return fs
 }
@@ -494,6 +563,7 @@ func (s *server) runInBubble(req request) reply {
 			insts = append(insts, i)
 			if judging {
 				ck.inst[i.Name] = ck.digestOneInst(i, ck.stopSet(supplied), insts)
+				ck.adoptNewCaches()
 			}
 		}
 	}
@@ -965,6 +1035,10 @@ func TestCheck(t *testing.T) {
 		"for sequences of length >= 2 (only the last step judged) ONE execution serves both oracles: the frame digests are taken first, the behaviour probes run afterwards; a replay runs each oracle on its own and judges every step",
 		"the engine's four re-executions of a violation candidate are answered from the first verdict when the candidate's signature is listed as known (it cannot raise an alarm); every other candidate is re-executed for real",
 		"funcs are digested by code pointer (two closures of the same literal are equal)",
+		"a jose.JSONWebKey is a digest leaf (key id, use, algorithm, SHA-256 thumbprint of the key material): caller-owned key lists handed to oidc.FindMatchingKey / oidc.FindKey are under the frame condition element by element (the argument before and after the call)",
+		"cached keys of a remote key set (rp.remoteKeySet.cachedKeys, behind the key set's mutex and therefore not compared as instance fields): judged by the rule 'the cache is replaced by a download and by nothing else' - a change of the cached list in a step during which the key set's OWN document URL was not fetched (the in-process transport counts the fetches per URL) is a hidden write by a lookup; a change in a step that did fetch is accepted whatever it is (nothing is assumed about what a key set keeps of a downloaded document); key sets created in the judged step are not judged in that step",
+		"refused-request operations: which requests a provider MUST refuse is the business of other properties; an operation of this family is effective when its requests took an error path (status >= 300; at most two of the 43 non-authorize refusals may be served, e.g. RFC 7009 revocation of a foreign token) and, for the callback before login, when the answer is interaction_required with exactly the request's own state and session_state",
+		"key-set operations: effective when every token (one per key type, with / without kid) verifies on the key sets over the three published shapes (each shape holds exactly one key per type, so a kid-less lookup has exactly one candidate) and when the lookups over the caller-owned lists find keys; WHAT the lookups find is judged by the differential aspects verify:*",
 		"storage-owned device states are under the frame condition from the first storage action of the harness that touches them (approval / hand-out of the pointer), at the latest from the end of the operation that created them; writes the harness makes in the role of the storage owner are accepted leaf by leaf",
 		"refstore (with ShareDevState: the storage hands out its own *DeviceAuthorizationState, as the repository's example storage does) and the in-process transport installed as http.DefaultTransport are trusted",
 		"caller-supplied *oauth2.Config is handed over with AuthStyle 0 (the constructor's unconditional store of its own AuthStyle into that object is not judged: ownership of the config passes to the relying party)",
